@@ -418,21 +418,22 @@ class MultipartRelatedConsolidator(ConsolidatorBase):
                 flag_str += "+"  # Show positive sign
             elif " " in flags:
                 flag_str += " "  # Space before positive numbers
-            if "0" in flags:
-                flag_str += "0"  # Zero padding
+            if "0" in flags and "-" not in flags:
+                flag_str += "0"  # Zero padding (ignored when left-aligned, as in printf)
 
-            # Build width and precision if they exist
+            # Build width if it exists
             width_str = width if width else ""
-            precision_str = f".{precision}" if precision else ""
 
-            # Handle cases like "%6.6d", which should be converted to "{:06d}"
-            if precision and width:
-                flag_str = "0"
-                precision_str = ""
-                width_str = str(max(precision, width))
+            # A precision is the minimum number of digits (the sign is not counted); new-style integer
+            # formats have no precision, so express it as zero padding: "%6.6d" should be converted
+            # to "{:06d}", "%.5d" to "{:05d}" and "%+6.6d" to "{:+07d}"
+            if precision:
+                sign_str = "+" if "+" in flags else " " if " " in flags else ""
+                flag_str = sign_str + "0"
+                width_str = str(max(int(precision) + len(sign_str), int(width or 0)))
 
             # Construct the new-style format specifier
-            return f"{{:{flag_str}{width_str}{precision_str}{type_char}}}"
+            return f"{{:{flag_str}{width_str}{type_char}}}"
 
         self.template = (
             self._sres_parameters["template"]
